@@ -21,7 +21,7 @@ func ptr(b *byte) unsafe.Pointer { return unsafe.Pointer(b) }
 const (
 	MaxTasks  = 96
 	MaxEvents = 1 << 16
-	MaxTape   = 1 << 16
+	MaxTape   = 1 << 18
 	MaxSites  = 1 << 15
 	MaxFaults = 1 << 12
 	MaxGC     = 16
@@ -56,6 +56,15 @@ const (
 // step budget; DeadlockAbort is thrown by Blocked once a deadlock was detected.
 type BudgetExceeded struct{}
 type DeadlockAbort struct{}
+
+// HaltAbort is thrown by Y and Blocked in every task once Halt was called: the
+// simulated program has exited (os.Exit, or its main function returned).
+type HaltAbort struct{}
+
+// PanicHandler, when set, receives a panic value that escaped a task body
+// (other than the simulator's own sentinels) instead of it being counted as a
+// harness bug: for whole-program scenarios a crash is an outcome.
+var PanicHandler func(task int, r interface{})
 
 type task struct {
 	state     int32
@@ -127,6 +136,9 @@ var (
 	TaskPanics   int64
 	StuckOutside bool
 
+	halting  bool
+	defLimit int64
+
 	SiteHit    [MaxSites]uint8
 	SiteSwitch [MaxSites]uint8
 	SiteMark   [MaxSites]uint8
@@ -151,6 +163,9 @@ type Config struct {
 	FaultTape   []int64
 	GCSteps     []int64
 	Pipe        bool
+	// DefaultOpLimit is the step budget of a task that never calls BeginOp
+	// (0: unlimited)
+	DefaultOpLimit int64
 }
 
 //go:norace
@@ -178,6 +193,11 @@ func Init(c Config) {
 		mean = 1
 	}
 	cur, nTasks, active = -1, 0, false
+	halting, nClosed, Deadlock = false, 0, false
+	defLimit = c.DefaultOpLimit
+	if defLimit <= 0 {
+		defLimit = Inf
+	}
 	countdown, lastDec, fallback = Inf, Steps, false
 	replay, nTapeIn, tapePos, pendP = c.Replay, 0, 0, 0
 	for i, e := range c.Tape {
@@ -249,7 +269,7 @@ func Spawn(f func()) int {
 	nTasks++
 	t := &tasks[id]
 	t.state = stRunnable
-	t.opLimit = Inf
+	t.opLimit = defLimit
 	if mode == ModePCT && !replay {
 		t.prio = int64(draw(1<<30)) + 1
 	}
@@ -267,7 +287,18 @@ func Spawn(f func()) int {
 		defer finish(id)
 		defer func() {
 			if r := recover(); r != nil {
-				TaskPanics++
+				switch r.(type) {
+				case HaltAbort, DeadlockAbort, BudgetExceeded:
+					if PanicHandler == nil {
+						TaskPanics++
+					}
+				default:
+					if PanicHandler != nil {
+						PanicHandler(id, r)
+					} else {
+						TaskPanics++
+					}
+				}
 			}
 		}()
 		f()
@@ -344,6 +375,9 @@ func event(site, from, to, kind int) {
 //go:norace
 func eligible(i int) bool {
 	st := tasks[i].state
+	if halting && st == stBlocked {
+		return true
+	}
 	return st == stRunnable || (st == stBlocked && tasks[i].blockedAt != syncEpoch)
 }
 
@@ -390,27 +424,36 @@ func decide(me, kind, site int) int {
 		p %= int64(n)
 		loadTape()
 	} else {
-		switch mode {
-		case ModePCT:
-			best := 0
-			for i := 1; i < n; i++ {
-				if tasks[cand[i]].prio > tasks[cand[best]].prio {
-					best = i
+		if NTapeOut >= MaxTape {
+			// the tape is full: from here on behave exactly as a replay that
+			// has run past the end of its tape (first candidate, no preemption)
+			p = 0
+			countdown = Inf
+		} else {
+			switch mode {
+			case ModePCT:
+				best := 0
+				for i := 1; i < n; i++ {
+					if tasks[cand[i]].prio > tasks[cand[best]].prio {
+						best = i
+					}
 				}
+				p = int64(best)
+			default:
+				p = int64(draw(uint64(n)))
 			}
-			p = int64(best)
-		default:
-			p = int64(draw(uint64(n)))
-		}
-		c := int64(-1)
-		if kind == KPreempt {
-			c = Steps - lastDec
-		}
-		if NTapeOut < MaxTape {
+			c := int64(-1)
+			if kind == KPreempt {
+				c = Steps - lastDec
+			}
 			TapeOut[NTapeOut] = [2]int64{c, p}
 			NTapeOut++
+			if NTapeOut >= MaxTape {
+				countdown = Inf
+			} else {
+				genCountdown()
+			}
 		}
-		genCountdown()
 	}
 	lastDec = Steps
 	next := cand[p]
@@ -556,6 +599,9 @@ func Y(site int) {
 		return
 	}
 	me := cur
+	if halting {
+		panic(HaltAbort{})
+	}
 	Steps++
 	SiteHit[site&(MaxSites-1)] = 1
 	t := &tasks[me]
@@ -571,7 +617,7 @@ func Y(site int) {
 		GCFired++
 		runtime.GC()
 	}
-	if !replay {
+	if !replay && NTapeOut < MaxTape {
 		if t.opSteps == t.opLimit>>1 && !fallback && nTasks > 1 {
 			// an operation that has used half its budget without finishing may
 			// be spinning on something another task must release: make sure
@@ -617,6 +663,9 @@ func Blocked() {
 		runtime.Gosched()
 		return
 	}
+	if halting {
+		panic(HaltAbort{})
+	}
 	if Deadlock {
 		panic(DeadlockAbort{})
 	}
@@ -632,7 +681,25 @@ func Blocked() {
 		panic(DeadlockAbort{})
 	}
 	handTo(me, next, -2, KBlocked)
+	if halting {
+		t.state = stRunnable
+		panic(HaltAbort{})
+	}
 }
+
+// Halt makes every other task abort at its next yield point or wait: the
+// simulated program is exiting. The caller keeps running.
+//
+//go:norace
+func Halt() {
+	if active {
+		halting = true
+		syncEpoch++
+	}
+}
+
+//go:norace
+func Halting() bool { return halting }
 
 // Fault draws one fault decision in [0,n) from the fault stream (recorded).
 //
